@@ -243,7 +243,11 @@ def rule_cross_class_state_keyed_by_class(ctx, rep: Report, rid="X4"):
     pwc = prog.cls("PybindWrapper")
     wm = prog.method("PybindWrapper", "_wrap_method")
     from .rules_xml import docstring_source
-    holder, _tpl, _e, _ok, body, pmap, _hc = docstring_source(ctx)
+    try:
+        holder, _tpl, _e, _ok, body, pmap, _hc = docstring_source(ctx)
+    except AnalysisError:
+        # the docstring does not fill a {docstring} field (that is C17's business): look at the call itself
+        body, pmap = wm, {}
     call = next((c for c in ast.walk(body) if isinstance(c, ast.Call) and isinstance(c.func, ast.Attribute) and c.func.attr == "extract_docstring"), None)
     cls_arg = pmap.get(unparse(call.args[1]), unparse(call.args[1])) if call is not None and len(call.args) >= 2 else None
     rep.add(rid, "_wrap_method:passes the class's full C++ name to the docstring lookup",
